@@ -1,4 +1,5 @@
 """C06 — output is a deterministic function of registry and settings-as-sets."""
+import re
 from ..core import q
 from ..core.q import expect_term, site, peel
 from ..core.ir import walk, strip
@@ -255,15 +256,19 @@ def sorted_lists(ctx, sorted_locals):
             if not info.get("rep"):
                 continue
             reps += 1
-            lid = strip(e).get("id")
-            a = sorted_locals.get((fn["path"], lid))
             key = "sorted-list/" + T.render_pos(items)
-            if a is None:
-                ctx.bad("C06.3", key, site(node), "the repetition iterates `%s`, which is not a Vec sorted immediately after collection" % strip(e).get("name"))
+            # the iterated value as a term (a private helper doing the collect + sort is looked through): the set collected into a Vec,
+            # then exactly one sort, unconditionally
+            t = N.term(e)
+            effs = t[3] if t[0] == "mut" else []
+            if t[0] != "mut" or not re.fullmatch(r"Iterator::collect\(HashSet::iter\(P0\.\w+\)\)", show(t[2])) or len(effs) != 1 \
+                    or effs[0][0] != "mutcall" or effs[0][2] != "" or effs[0][-1] or len(effs[0][3]) != 1:
+                ctx.bad("C06.3", key, site(node), "the repetition iterates `%s`, which is not a Vec sorted (once, unconditionally) right after collection from the set"
+                        % show(t)[:300])
                 continue
-            cmp_t = show(N.term(a["sort_node"]["args"][0]))
-            ok = (a["sort"] in ("slice::sort_by", "slice::sort_unstable_by") and cmp_t == "|2|{Ord::cmp(ToString::to_string(T[#0](C1_0)),ToString::to_string(T[#0](C1_1)))}") or \
-                 (a["sort"] in ("slice::sort_by_key", "slice::sort_by_cached_key", "slice::sort_unstable_by_key") and cmp_t == "|1|{ToString::to_string(T[#0](C1_0))}")
+            sort, cmp_t = effs[0][1], show(effs[0][3][0])
+            ok = (sort in ("slice::sort_by", "slice::sort_unstable_by") and cmp_t == "|2|{Ord::cmp(ToString::to_string(T[#0](C1_0)),ToString::to_string(T[#0](C1_1)))}") or \
+                 (sort in ("slice::sort_by_key", "slice::sort_by_cached_key", "slice::sort_unstable_by_key") and cmp_t == "|1|{ToString::to_string(T[#0](C1_0))}")
             ctx.expect(ok, "C06.3", key, site(node),
                        "emitted list is the HashSet collected into a Vec and sorted by the elements' token strings (total order on distinct token strings)",
                        "comparator is not `cmp` of the two elements' token strings: " + cmp_t)
